@@ -612,6 +612,8 @@ func run(input string) string {
 		return runJsonpath(m)
 	case "idx":
 		return runIdx(m)
+	case "iter", "dnsc":
+		return runViaChild(input)
 	case "run":
 		// in a child process (child.go): a crash of the whole process is an observation of THIS case
 		return runViaChild(input)
@@ -1243,6 +1245,12 @@ func gen(r *rand.Rand, tier string) []string {
 func class(input, obs string) string {
 	m := drv.KV(input)
 	c := m["k"]
+	if m["k"] == "iter" {
+		return "iter:shared-iterator-concurrent:g" + m["g"]
+	}
+	if m["k"] == "dnsc" {
+		return "dnsc:dns-caching-dialer-concurrent:g" + m["g"]
+	}
 	if m["k"] == "run" {
 		c += ":" + m["gun"] + ":" + m["tgt"]
 		if strings.Contains(input, "~s1:") || strings.Contains(input, "~s2:") || strings.Contains(input, "/s1:") || strings.Contains(input, "/s2:") {
